@@ -1,5 +1,6 @@
 import Ruint.Model.History
 import Ruint.Gen.WordsKernels
+import Ruint.Gen.WordsUintMod
 /-! Driver for C04.
 * `hist`: model = `Ruint.History.step` (limb-level models) for the operations that have one, value-level
   arithmetic re-encoded into limbs for operations owned by other properties; spec = value-level arithmetic
@@ -208,7 +209,9 @@ def limbOps (op : String) (bits : Nat) (ls : String) : String × String :=
   | "cfls" => (resStrO (Canon.checkedFromLimbsSlice bits sl), if ov then "none" else "some " ++ toHex v)
   | "wfls" => (resStr (Canon.wrappingFromLimbsSlice bits sl), toHex (v % m))
   | "sfls" => (resStr (Canon.saturatingFromLimbsSlice bits sl), if ov then toHex (m - 1) else toHex v)
-  | "from_limbs" => (match Canon.fromLimbs bits sl with | some l => out l | none => "panic",
+  -- `from_limbs` GENERATED from src/lib.rs (`Props/C04.gen_from_limbs_eq`) when the slice has LIMBS limbs
+  | "from_limbs" => (match (if sl.length = nlimbs bits then Ruint.Gen.uint_from_limbs bits (nlimbs bits) sl
+                            else Canon.fromLimbs bits sl) with | some l => out l | none => "panic",
       if ov then "panic" else toHex v)
   | "arkfrom" | "arkfromref" =>
       -- ark-ff 0.4 `From<BigInt<LIMBS>>`: `from_limbs` behind a conversion trait (raw limbs printed)
